@@ -179,6 +179,32 @@ fn gen_case(r: &mut Rng, depth: u32) -> Option<fol::Formula> {
     o.max_chain = 4;
     o.consts = vec![("c".into(), Sort::G), ("n".into(), Sort::I), ("sy".into(), Sort::S), ("m".into(), Sort::I)];
     let mut text = gen_formula(r, &o, depth);
+    if r.chance(1, 5) {
+        // every relation between every pair of statically sorted operands (the rendering chooses
+        // between $less & co., the general order predicates and plain (in)equality by these sorts)
+        let ints = ["3", "-2", "0", "n$i", "N$i", "n$i + 1", "N$i * 2", "-N$i"];
+        let syms = ["a", "b", "sy$s", "S$s"];
+        let gens = ["c$g", "X", "#inf", "#sup", "Y$g"];
+        let mut term = |r: &mut Rng| -> &'static str {
+            match r.below(3) {
+                0 => ints[r.upto(ints.len())],
+                1 => syms[r.upto(syms.len())],
+                _ => gens[r.upto(gens.len())],
+            }
+        };
+        let rels = ["=", "!=", "<", "<=", ">", ">="];
+        let mut cmp = format!("{} {} {}", term(r), rels[r.upto(6)], term(r));
+        for _ in 0..r.upto(3) {
+            cmp.push_str(&format!(" {} {}", rels[r.upto(6)], term(r)));
+        }
+        text = match r.below(5) {
+            0 => format!("not ({cmp})"),
+            1 => format!("({cmp}) or p(1)"),
+            2 => format!("({cmp}) -> q(a)"),
+            3 => format!("forall N$i S$s X Y$g ({cmp})"),
+            _ => cmp,
+        };
+    }
     if r.chance(1, 10) {
         // extreme and negative numerals
         let lit = ["-9223372036854775808", "9223372036854775807", "-9223372036854775807", "-1", "-0"][r.upto(5)];
